@@ -301,6 +301,17 @@ def main(argv):
                         hints.append(h)
         except Exception:
             hints = []
+    # the listed findings' own witnesses are replayed on every run
+    reproduced, stale = [], []
+    for k in known:
+        w = k.get("witness_history")
+        if not w:
+            continue
+        try:
+            fs = run_history(w["cfg"], w["ops"], checks.PROP_GROUP.get(prop, [prop]), known)
+        except Exception as ex:
+            fs = []
+        (reproduced if any(f.get("known") == k["id"] for f in fs) else stale).append(k["id"])
     rng = random.Random(1000003 * seed + 17)
     budget = {"quick": 25.0, "thorough": 600.0}[tier]
     n_hist = evals = 0
@@ -327,8 +338,8 @@ def main(argv):
             failures.append(f)
         if len([f for f in failures if not f.get("known")]) >= 3:
             break
-    stale = checks.stale_findings(prop, known, failures)
-    out = dict(failures=failures[:12], stale_findings=stale,
+    failures = [dict(prop=prop, clause="(witness of listed finding reproduces)", known=i, step=-1, op=None) for i in reproduced] + failures
+    out = dict(failures=failures[:14], stale_findings=stale,
                summary=dict(kind="bounded stand-in (never counted as proved)", histories=n_hist, evaluations=evals, distinct_nontrivial=len(distinct),
                             rule="random API call histories (4-20 calls after declarations) on generated VirtualDevice configurations (clock 1-8, min duration 1-20, optional "
                                  "max duration / bandwidth / EOM / DMM / max sequence duration); concrete contracts of the property evaluated after every call; "
